@@ -3609,7 +3609,8 @@ class GraphicObject:
             and self.stroke.value is not None
         ):
             try:
-                self.stroke.opacity = float(stroke_opacity)
+                # The opacity multiplies the alpha the color itself may carry.
+                self.stroke.opacity = self.stroke.opacity * float(stroke_opacity)
             except ValueError:
                 pass
         fill = values.get(SVG_ATTR_FILL)
@@ -3622,7 +3623,8 @@ class GraphicObject:
             and self.fill.value is not None
         ):
             try:
-                self.fill.opacity = float(fill_opacity)
+                # The opacity multiplies the alpha the color itself may carry.
+                self.fill.opacity = self.fill.opacity * float(fill_opacity)
             except ValueError:
                 pass
         self.stroke_width = Length(values.get("stroke_width", 1.0)).value()
